@@ -1,0 +1,23 @@
+// Verification contracts (comment-only, compiled only with the "verif" build tag; read by /verif/govc).
+
+//go:build verif
+// +build verif
+
+package ucon
+
+// Contracts for sortition.go — property C04.
+
+// search: binary search for the least index at which a monotone predicate holds (n when it holds nowhere).
+//@ func search props C04
+//@ panics none
+//@ pureparam f
+//@ requires 0 <= n && n < 2^62
+//@ requires forall a: int, b: int :: { f(a), f(b) } 0 <= a && a <= b && b < n && f(a) ==> f(b)
+//@ loop i invariant [range] 0 <= i && i <= j && j <= n
+//@ loop i invariant [below] forall k: int :: { f(k) } 0 <= k && k < i ==> !f(k)
+//@ loop i invariant [at-j] j < n ==> f(j)
+//@ loop i decreases j - i
+//@ modifies nothing
+//@ ensures [range] 0 <= result && result <= n
+//@ ensures [least] forall k: int :: { f(k) } 0 <= k && k < result ==> !f(k)
+//@ ensures [holds] result < n ==> f(result)
